@@ -36,12 +36,17 @@ pub mod {m} {{
     #[derive(Debug, darling::{tr})]
     {attr}
     pub struct G3<T: Default> {{ #[darling(default)] pub a: std::collections::HashMap<String, T>, #[darling(default)] pub b: Box<Option<T>> }}
+    // the parameter only inside `::`-rooted paths, a qualified path and a parenthesised type
+    #[derive(Debug, darling::{tr})]
+    {attr}
+    pub struct G4<T, U, V> {{ pub a: ::std::option::Option<T>, #[darling(multiple)] pub b: ::std::vec::Vec<U>, pub c: (::std::boxed::Box<V>) }}
     fn need<X: darling::{tr}>() {{}}
     pub fn instantiate() {{
         need::<G0<u32, Opaque>>();
         need::<G1<'static, Inner, 3>>();
         need::<G2<u8, Opaque>>();
         need::<G3<u32>>();
+        need::<G4<u32, u8, String>>();
     }}
 }}
 "#
